@@ -23,6 +23,15 @@ pub fn check_program(src: &str) -> Result<usize, String> {
             return Err(format!("`{}` is located at {sl}:{sc} - {el}:{ec}, which is not a stretch of one line of the file; program: {src:?}", d.title));
         }
         let text: String = lines[sl].iter().skip(sc).take(ec + 1 - sc).collect();
+        // a diagnostic that names labels sits on one of them
+        for prefix in ["Labels not defined: ", "Duplicate label: "] {
+            if let Some(names) = d.title.strip_prefix(prefix) {
+                let t = text.trim().trim_end_matches(':');
+                if !names.split(", ").any(|n| n.trim() == t) {
+                    return Err(format!("`{}` is located on {text:?} (line {sl}, columns {sc}..={ec}), which is none of the labels it names; program: {src:?}", d.title));
+                }
+            }
+        }
         let is_use = USE_KINDS.contains(&d.title.as_str());
         let is_def = DEF_KINDS.contains(&d.title.as_str());
         if !is_use && !is_def { continue; }
@@ -45,6 +54,45 @@ pub fn check_program(src: &str) -> Result<usize, String> {
     Ok(seen)
 }
 
+/// two files: a diagnostic's range must designate, in the file it names, the text it is about
+fn check_two_files(main: &str, lib: &str) -> Result<(), String> {
+    use riscv_analysis::reader::{FileReader, FileReaderError};
+    use std::collections::HashMap;
+    use uuid::Uuid;
+    #[derive(Clone, Default)]
+    struct Mem { disk: HashMap<String, String>, read: HashMap<Uuid, String>, base: Option<Uuid> }
+    impl FileReader for Mem {
+        fn import_file(&mut self, path: &str, _p: Option<Uuid>) -> Result<(Uuid, String), FileReaderError> {
+            if self.read.values().any(|p| p == path) { return Err(FileReaderError::FileAlreadyRead(path.to_string())); }
+            let text = self.disk.get(path).ok_or(FileReaderError::InvalidPath)?.clone();
+            let id = Uuid::new_v4(); self.read.insert(id, path.to_string()); self.base.get_or_insert(id); Ok((id, text))
+        }
+        fn get_text(&self, u: Uuid) -> Option<String> { self.disk.get(self.read.get(&u)?).cloned() }
+        fn get_filename(&self, u: Uuid) -> Option<String> { self.read.get(&u).cloned() }
+        fn get_base_file(&self) -> Option<Uuid> { self.base }
+    }
+    let mut disk = HashMap::new();
+    disk.insert("main.s".to_string(), main.to_string());
+    disk.insert("lib.s".to_string(), lib.to_string());
+    let mut parser = RVParser::new(Mem { disk: disk.clone(), ..Default::default() });
+    let diags = parser.run("main.s");
+    for d in &diags {
+        let Some(name) = parser.reader.get_filename(d.file) else { return Err(format!("`{}` names a file that was never read; files: {main:?} / {lib:?}", d.title)); };
+        let text = &disk[&name];
+        let lines: Vec<Vec<char>> = text.split('\n').map(|l| l.chars().collect()).collect();
+        let (sl, sc, el, ec) = (d.range.start().zero_idx_line(), d.range.start().zero_idx_column(), d.range.end().zero_idx_line(), d.range.end().zero_idx_column());
+        if sl != el || sl >= lines.len() || sc > ec || ec > lines[sl].len() { return Err(format!("`{}` is located at {name} {sl}:{sc}-{el}:{ec}, not a stretch of one line of that file; files: {main:?} / {lib:?}", d.title)); }
+        let shown: String = lines[sl].iter().skip(sc).take(ec + 1 - sc).collect();
+        for prefix in ["Labels not defined: ", "Duplicate label: "] {
+            if let Some(names) = d.title.strip_prefix(prefix) {
+                let t = shown.trim().trim_end_matches(':');
+                if !names.split(", ").any(|n| n.trim() == t) { return Err(format!("`{}` is located on {shown:?} in {name}, which is none of the labels it names; files: {main:?} / {lib:?}", d.title)); }
+            }
+        }
+    }
+    Ok(())
+}
+
 pub fn search(v: &serde_json::Value) -> i32 {
     if let Some(src) = v.get("inputs").and_then(|i| i.get("program")).and_then(|s| s.as_str()) {
         return match check_program(src) { Err(w) => { println!("witness: {w}"); 1 } Ok(n) => { println!("{n} register diagnostics of {src:?} are on the right operand"); 0 } };
@@ -60,7 +108,24 @@ pub fn search(v: &serde_json::Value) -> i32 {
             match check_program(&text) { Err(w) => { println!("witness: {w}"); return 1; } Ok(k) => total += k }
         }
     }
+    // a diagnostic given for every instruction of a region lands once on each of them - also on an instruction that a pass
+    // has rewritten (the second `ret` of a function becomes a jump to the first)
+    for (src, title, lines) in [("main:\n jal f\n li a7, 10\n ecall\n.data\nf: beqz a0, L\n ret\nL: ret\n", "Invalid segment", vec![5usize, 6, 7])] {
+        for _ in 0..6 {
+            n += 1;
+            let diags = match catch_unwind(AssertUnwindSafe(|| { let mut p = RVParser::new(EmptyFileReader::new(src)); p.run(EmptyFileReader::get_file_path()) })) { Ok(d) => d, Err(_) => { println!("witness: the analyzer panicked on {src:?}"); return 1; } };
+            let mut got: Vec<usize> = diags.iter().filter(|d| d.title == title).map(|d| d.range.start().zero_idx_line()).collect();
+            got.sort();
+            if got != lines { println!("witness: `{title}` is expected once on each of the lines {lines:?}, it is reported on {got:?}; program: {src:?}"); return 1; }
+        }
+    }
+    // undefined / duplicate labels spread over two files (file ids are random: several runs)
+    for (main, lib) in [(".include \"lib.s\"\nmain:\n    li a7, 10\n    ecall\n    j missing_in_main\n", "j gone\n"),
+                        ("main:\n    jal foo\n    li a7, 10\n    ecall\n.include \"lib.s\"\n", "helper:\n    jal bar\n    ret\n"),
+                        (".include \"lib.s\"\nmain:\n    li a7, 10\n    ecall\nhelper:\n    ret\n", "helper:\n    ret\n")] {
+        for _ in 0..8 { n += 1; if let Err(w) = check_two_files(main, lib) { println!("witness: {w}"); return 1; } }
+    }
     if total < 20 { println!("error: the pool produces only {total} register diagnostics"); return 2; }
-    println!("no misplaced diagnostic among {total} register diagnostics of {n} program layouts (use-type diagnostics on a register the instruction reads, definition-type diagnostics on the register it writes, every diagnostic on one line inside the file)");
+    println!("no misplaced diagnostic among {total} register diagnostics of {n} program layouts (use-type diagnostics on a register the instruction reads, definition-type diagnostics on the register it writes, label diagnostics on one of the labels they name, in the file they name, every diagnostic on one line inside its file)");
     0
 }
